@@ -3,7 +3,7 @@
    mode) is regenerated from the tree under test on every run. *)
 From Coq Require Import ZArith String List Ascii Bool.
 Import ListNotations.
-From FV.C04 Require Import Text Model Proofs Corr.
+From FV.C04 Require Import Text Model Proofs Corr Offsets.
 From FV.C04.gen Require Import UcdCfg.
 
 Section Statement.
@@ -62,6 +62,60 @@ Section Statement.
     - apply lookup_reindex. exact Hid.
   Qed.
 
+  (* The file determines the id-keyed content: two well-formed meshes that are written to the same
+     lines have the same first-order content (ids, coordinates, types, connectivity, every value of
+     every 2-D variable).  "Nothing is lost" stated without the reader. *)
+  Theorem C04_file_determines_content :
+    cfg_ok UcdCfg.cfg = true ->
+    forall (m1 m2 : mesh V) (f : list str),
+      wf V element_types m1 = true -> wf V element_types m2 = true ->
+      write_ucd V vprint element_types UcdCfg.cfg m1 = Ok f ->
+      write_ucd V vprint element_types UcdCfg.cfg m2 = Ok f ->
+      first_order V element_types m1 = first_order V element_types m2.
+  Proof.
+    intros Hc m1 m2 f H1 H2 W1 W2.
+    assert (R1 : roundtrip V vprint vparse element_types UcdCfg.cfg m1 = Ok (first_order V element_types m1))
+      by (apply roundtrip_ok; auto).
+    assert (R2 : roundtrip V vprint vparse element_types UcdCfg.cfg m2 = Ok (first_order V element_types m2))
+      by (apply roundtrip_ok; auto).
+    unfold roundtrip in R1, R2. rewrite W1 in R1. rewrite W2 in R2. simpl in R1, R2.
+    congruence.
+  Qed.
+
+  (* The reader reads at the named positions of Offsets.v (m_...): kernel-checked by computation.
+     The per-run obligation C04_reader_offsets (harness) proves that the expressions translated from
+     femio/formats/ucd/ucd.py of the tree under test (gen/UcdOffsets.v, s_...) equal them for all
+     header counts. *)
+  Theorem C04_reader_reads_at_named_offsets :
+    forall lines h,
+      read_nodes V vparse lines h =
+        mapM (parse_row vparse m_node_first_col None)
+             (slice (m_nodes_lo (n_node h)) (m_nodes_hi (n_node h)) lines)
+      /\ read_nodal_data V vparse lines h =
+        (if Nat.eqb (all_dn h) 0 then Ok []
+         else
+           do names <- read_names (slice (m_nnames_lo (n_node h) (n_element h) (n_nodal h))
+                                         (m_nnames_hi (n_node h) (n_element h) (n_nodal h)) lines);
+           read_assoc V vparse
+             (slice (m_nrows_lo (n_node h) (n_element h) (n_nodal h))
+                    (m_nrows_hi (n_node h) (n_element h) (n_nodal h)) lines)
+             m_data_first_col (combine names (nodal_dims h)))
+      /\ read_elemental_data V vparse lines h =
+        (if Nat.eqb (all_de h) 0 then Ok []
+         else
+           do names <- read_names
+                         (slice (m_enames_lo (n_node h) (n_element h) (all_dn h) (n_nodal h) (n_elemental h))
+                                (m_enames_hi (n_node h) (n_element h) (all_dn h) (n_nodal h) (n_elemental h))
+                                lines);
+           read_assoc V vparse
+             (slice (m_erows_lo (n_node h) (n_element h) (all_dn h) (n_nodal h) (n_elemental h))
+                    (m_erows_hi (n_node h) (n_element h) (all_dn h) (n_nodal h) (n_elemental h)) lines)
+             m_data_first_col (combine names (elemental_dims h))).
+  Proof.
+    intros lines h. split; [apply read_nodes_offsets|]. split;
+      [apply read_nodal_data_offsets | apply read_elemental_data_offsets].
+  Qed.
+
   Theorem C04_nodal_values_by_id :
     forall (m : mesh V) name tb id,
       In (name, tb) (nodal_2d V m) -> In id (map fst (m_nodes V m)) ->
@@ -76,6 +130,29 @@ Theorem C04_typed_variable_lookup :
     NoDup (map fst (flat_map snd (ordered_blocks element_types bs))) ->
     lookup id (ea_table element_types bs) = lookup id (flat_map snd (ordered_blocks element_types bs)).
 Proof. intros. apply ea_table_lookup. assumption. Qed.
+
+(* read_headers / read_elements read at the named positions (no float values involved) *)
+Theorem C04_reader_headers_at_named_offsets :
+  forall lines,
+    read_headers lines =
+      (do l0 <- line_at 0 lines;
+       do top <- parse_ints l0;
+       do nn <- nth_r 0 top; do ne <- nth_r 1 top; do dn <- nth_r 2 top; do de <- nth_r 3 top;
+       do nh <- (if Nat.eqb dn 0 then Ok (0, [0])
+                 else do l <- line_at (m_nodal_header_line nn ne) lines; count_dims l);
+       do eh <- (if Nat.eqb de 0 then Ok (0, [0])
+                 else do l <- line_at (m_elemental_header_line nn ne (fst nh)) lines; count_dims l);
+       Ok {| n_node := nn; n_element := ne; all_dn := dn; all_de := de;
+             n_nodal := fst nh; nodal_dims := snd nh;
+             n_elemental := fst eh; elemental_dims := snd eh |})
+    /\ forall h, read_elements element_types lines h =
+      (do rows <- mapM (fun l => do t <- nth_r m_elem_type_col (tokens l);
+                                 do r <- parse_row parse_Z m_elem_first_col None l; Ok (t, r))
+                       (slice (m_elems_lo (n_node h) (n_element h))
+                              (m_elems_hi (n_node h) (n_element h)) lines);
+       if forallb (fun r => mem_str (fst r) element_types) rows then Ok (group_rows element_types rows)
+       else Err "Unsupported element type").
+Proof. intros lines. split; [apply read_headers_offsets | intros h; apply read_elements_offsets]. Qed.
 
 (* per-run tie of the file layer: StringSeries.read_file / read_files of the tree
    under test are the bodies the model stands for (the file is read on every
@@ -142,6 +219,31 @@ Theorem C04_example_wf :
   /\ model_roundtrip_ok element_types positional example = true.
 Proof. vm_compute. repeat split. Qed.
 
+(* non-vacuity of C04_file_determines_content: `example` and `example_permuted` (the variable t and
+   the tri block of p q stored in another id order) are different well-formed meshes, the by-id
+   writer gives both the same file, and their id-keyed content is the same *)
+Definition by_id : wcfg := {| nodal_by_id := true; elemental_by_id := true |}.
+Definition example_permuted : mesh str :=
+  Build_mesh (m_nodes _ example) (m_elems _ example)
+    [Build_nvar (S "NODE") true (m_nodes _ example);
+     Build_nvar (S "t") true [(1%Z, [S "-inf"]); (9%Z, [S "inf"]); (5%Z, [S "1.5"]); (3%Z, [S "2.5"])];
+     Build_nvar (S "series") false []]
+    [Build_evar (S "p q") true
+       [(S "tri", [(20%Z, [S "2.0"; S "2.5"]); (40%Z, [S "4.0"; S "4.5"])]);
+        (S "tet2", [(30%Z, [S "3.0"; S "3.5"])])]].
+Theorem C04_example_same_file :
+  wf str element_types example_permuted = true
+  /\ res_agree (list_eqb str_eqb) (write_ucd str tprint element_types by_id example)
+       (match write_ucd str tprint element_types by_id example_permuted with Ok l => Some l | Err _ => None end)
+     = true
+  /\ res_agree ucd_eqb (Ok (first_order str element_types example))
+       (Some (first_order str element_types example_permuted)) = true
+  /\ length (match write_ucd str tprint element_types by_id example with Ok l => l | Err _ => [] end) = 20.
+Proof. vm_compute. repeat split. Qed.
+
 Print Assumptions C04_ucd_roundtrip.
 Print Assumptions C04_ucd_roundtrip_aligned.
+Print Assumptions C04_file_determines_content.
+Print Assumptions C04_reader_reads_at_named_offsets.
+Print Assumptions C04_reader_headers_at_named_offsets.
 Print Assumptions C04_ucd_roundtrip_positional_refuted.
